@@ -123,6 +123,9 @@ def toProgram (items : List Item) (order : List Nat) : Program :=
 structure Parse where
   cfg : Cfg
   act : String
+  cfgAct : String := "test"
+  sortName : String := "kind"
+  ignName : String := "no"
   items : List Item
   order : List Nat
   fb : List (String × Option Nat)
@@ -167,7 +170,8 @@ def parse (args : List String) : Option Parse := do
     | "o.items" => rt := { rt with items := ← v.toNat? }
     | _ => pure ()
   -- the CLI sorts and dedups `--threads` itself
-  if via ≠ "builder" then rt := { rt with th := rt.th.map fun l => dedupAdj (l.mergeSort (· ≤ ·)) }
+  -- both the command line and `Divan::threads` sort and dedup the list
+  rt := { rt with th := rt.th.map fun l => dedupAdj (l.mergeSort (· ≤ ·)) }
   let pos := (all "f").map fun h => (⟨exact, str h⟩ : FilterSpec)
   let neg := (all "s").map fun h => (⟨exact, str h⟩ : FilterSpec)
   -- call order: builder skips first (the child applies them before `config_with_args`), else the CLI's
@@ -184,7 +188,14 @@ def parse (args : List String) : Option Parse := do
     rev := get "rev" = some "1" && (get "sort").isSome && get "sort" ≠ some "-",
     runIgnored := match get "ign" with | some "inc" => 1 | some "only" => 2 | _ => 0,
     runtime := rt, filters, parallelism := ((get "par").bind String.toNat?).getD 1 }
-  some ⟨cfg, act, p.items, order, p.fb, p.slots, if via = "builder" then [] else pos, neg⟩
+  -- `config_with_args`: `--list` (terse under nextest), else `--test` or no `--bench` flag => test, else bench
+  let cfgAct := match act with
+    | "bench" => "bench" | "list" => "list" | "terse" => "terse" | _ => "test"
+  some { cfg := cfg, act := act, cfgAct := cfgAct,
+         sortName := (match get "sort" with | some "name" => "name" | some "location" => "location" | _ => "kind"),
+         ignName := (match get "ign" with | some "inc" => "inc" | some "only" => "only" | _ => "no"),
+         items := p.items, order := order, fb := p.fb, slots := p.slots,
+         pos := if via = "builder" then [] else pos, neg := neg }
 
 /-! ### executable specification on the abstract program -/
 
@@ -327,7 +338,13 @@ def handle (args : List String) (obs : String) : Option Reply := do
   let canon (t : String) : String :=
     "".intercalate ((t.splitOn "\n").dropLast.map fun l => " ".intercalate ((l.splitOn " ").filter (· ≠ "")) ++ "\n")
   let outTxt := if ps.cfg.action = .bench then canon r.out else r.out
-  let model := s!"X0 O{hexS outTxt} L{showExecs r.execs} E{evalsS}"
+  -- the run-time configuration as resolved from builder / command line / environment
+  let actName := match ps.act with
+    | "bench" => "bench" | "test" => "test" | "list" => "list" | "terse" => "terse"
+    | _ => "bench"          -- the api forms call `config_with_args` without an action flag: the default is `bench`... see below
+  let cfgDump := s!"act={ps.cfgAct};timer=os;sort={ps.sortName};rev={if ps.cfg.rev then 1 else 0};ign={ps.ignName};bytes=decimal;opts={(showOpts ps.cfg.runtime).replace " " ","}"
+  let _ := actName
+  let model := s!"X0 G{cfgDump} O{hexS outTxt} L{showExecs r.execs} E{evalsS}"
   -- ---- spec on the implementation's observation
   let o := words obs
   let seg (c : Char) : String := ((o.find? fun w => w.front = c).map fun w => (w.drop 1).toString).getD ""
@@ -342,6 +359,8 @@ def handle (args : List String) (obs : String) : Option Reply := do
   let execAct : Action := if ps.act = "bench" ∨ ps.act = "benchapi" then .bench else .test
   let sel := if ps.pos.isEmpty ∧ ps.neg.isEmpty then "[C12][C13]" else "[C13]"
   let v : List String :=
+    (if (seg 'X') = "0" ∧ seg 'G' ≠ cfgDump then
+       ["[C15][C14][C16] the runner's run-time configuration differs from what was given on the command line / DIVAN_* environment / builder (got " ++ seg 'G' ++ ")"] else []) ++
     (if (seg 'X') ≠ "0" then ["[C12][C13][C14][C15][C16][C17][C20] run did not finish cleanly (exit " ++ seg 'X' ++ ")"] else []) ++
     (match implExecs with
      | none => ["[C12][C13][C14][C15][C17] malformed invocation log"]
@@ -382,6 +401,52 @@ def handle (args : List String) (obs : String) : Option Reply := do
             | some c => if clash then [s!"[C15] calls / thread counts differ from the per-field resolved options (F7 name clash) (case {c.path})"]
                         else [s!"[C15][C03] calls / thread counts differ from the per-field resolved options (case {c.path})"]
             | none => [])
+        else []) ++
+       -- C03: the samples / iters figures of every statistics row
+       (if execAct = .bench ∧ !listing ∧ !clash then
+          let rows := (implOut.splitOn "\n").filterMap fun l =>
+            let cells := l.splitOn " │ "
+            if cells.length ≥ 6 then
+              match (cells.getD (cells.length - 2) "").trimAscii.toString.toNat?, (cells.getD (cells.length - 1) "").trimAscii.toString.toNat? with
+              | some a, some b => some (a, b)
+              | _, _ => none
+            else none
+          let want := ex.filterMap fun e =>
+            (runs.find? fun c => (c.slot, c.arg) == (e.slot, e.arg)).map fun c =>
+              let n := (resolve (·.sc) ps.cfg.runtime c.chain).getD 100
+              let sz := (resolve (·.ss) ps.cfg.runtime c.chain).getD 1
+              let t := max e.threads 1
+              if e.calls = 0 then (0, 0) else (t * ((n + t - 1) / t), sz * (t * ((n + t - 1) / t)))
+          if rows ≠ want then ["[C03] the samples / iters figures of a row are not T*ceil(n/T) and that times the sample size"] else []
+        else []) ++
+       -- C16: under --sort location the instantiations and the arguments of one benchmark keep their
+       -- declaration order (exactly reversed under --sortr)
+       (if !listing ∧ ps.cfg.attr = 2 ∧ !clash then
+          let mono (l : List Nat) : Bool :=
+            let l := if ps.cfg.rev then l.reverse else l
+            (l.zip (l.drop 1)).all fun (a, b) => a ≤ b
+          let badInst := ps.items.any fun it => match it with
+            | .generic _ insts hasT hasC =>
+              -- a types x consts benchmark has an intermediate type level without a position of its own
+              -- (name order there): declaration order is required among the consts of each type
+              let groups : List (List Nat) :=
+                if hasT ∧ hasC then (insts.map (·.ty)).eraseDups.map fun t => (insts.filter (·.ty == t)).map (·.slot)
+                else [insts.map (·.slot)]
+              groups.any fun slots => !mono ((ex.map (·.slot)).eraseDups.filter slots.contains)
+            | _ => false
+          let badArgs := ps.items.any fun it =>
+            let chk (slot : Nat) (args : Option (List String)) : Bool := match args with
+              | some names =>
+                if names.eraseDups.length ≠ names.length then false else
+                let got := ((ex.filter (·.slot = slot)).filterMap (·.arg)).eraseDups
+                !mono (got.filterMap fun a => names.idxOf? a)
+              | none => false
+            match it with
+            | .bench _ slot args => chk slot args
+            | .generic _ insts _ _ => insts.any fun b => chk b.slot b.args
+            | _ => false
+          (if badInst then ["[C16] under --sort location the generic instantiations of one benchmark are not in declaration order"] else []) ++
+          (if badArgs then ["[C16] under --sort location the arguments of one benchmark are not in declaration order"] else [])
         else []) ++
        -- C20: every selected argument case is part of the printed tree, also when only listing
        (if (ps.act = "list" ∨ ps.act = "listapi") ∧ runs.any (·.arg.isSome) ∧
